@@ -205,6 +205,16 @@ def prov_rdkit_attrs(repo, tier="quick"):
         if n.kind == "stmt" and isinstance(n.ast, ast.Assign) and isinstance(n.ast.targets[0], ast.Subscript) and \
                 isinstance(n.ast.targets[0].slice, ast.Constant) and n.ast.targets[0].slice.value in want:
             found[n.ast.targets[0].slice.value] = (n, fl.canon(n.ast.value, n.id))
+    # ... or a dict literal / keyword arguments handed to add_node
+    for call_, nid_ in adds:
+        ct_ = fl.canon(call_, nid_)
+        kw_ = dict(ct_[4])
+        splat_ = kw_.get("**")
+        pairs_ = list(splat_[1]) if splat_ is not None and splat_[0] == "dict" else []
+        pairs_ += [(("const", k_), v_) for k_, v_ in kw_.items() if k_ != "**"]
+        for k_, v_ in pairs_:
+            if k_[0] == "const" and k_[1] in want and k_[1] not in found:
+                found[k_[1]] = (cfg.nodes[nid_], v_)
     for key, (meth, intwrap) in want.items():
         ok = False
         if key in found:
@@ -285,6 +295,15 @@ def prov_rdkit_attrs(repo, tier="quick"):
         m = method_call(o) if o else None
         if m and m[1] == "GetBondTypeAsDouble":
             ok = True
+        if o is not None and o[0] == "ifexp":
+            # bt if bt == 1.5 else int(bt)   /   int(bt) if bt != 1.5 else bt
+            raw_ = lambda v: bool(method_call(v) and method_call(v)[1] == "GetBondTypeAsDouble")
+            int_ = lambda v: bool(is_call(v, "int") and is_call(v, "int")[0] and raw_(is_call(v, "int")[0][0]))
+            t_ = o[1]
+            is_15 = t_[0] == "cmp" and len(t_[1]) == 1 and t_[1][0] in ("==", "!=") and ("const", 1.5) in t_[2] and any(raw_(x) for x in t_[2])
+            if is_15:
+                keep, cast = (o[2], o[3]) if t_[1][0] == "==" else (o[3], o[2])
+                ok = raw_(keep) and int_(cast)
         (obs.append(ob_ok(oid, fi, call, construct="order = GetBondTypeAsDouble(), int() unless 1.5", instance="from-rdkit:order",
                           reason="bond orders come back as 1.5 for aromatic bonds and as integers otherwise")) if ok else
          obs.append(ob_fail(oid, fi, call, construct=why, instance="from-rdkit:order", reason="the bond order is not the RDKit bond type (int unless 1.5)")))
@@ -1233,6 +1252,33 @@ def prov_after_branch_order(repo, tier="quick"):
                                     bar_pos = True
                                 if not pol:
                                     bar_neg = True
+                # the same exclusion written over a window: `"|" in pattern[a:b]` / `any(pattern[p] == "|" for p in (p1, p2))`, negated
+                def _offset_from(t_, base_):
+                    """c with t_ == base_ + c for linear index terms, else None"""
+                    for c_ in range(-3, 4):
+                        if _same_index(t_, base_, c_):
+                            return c_
+                    return None
+                for test, pol, gid in gs:
+                    if pol:
+                        continue
+                    tt_ = fl.canon(test, gid)
+                    disj = tt_[2] if tt_[0] == "boolop" and tt_[1] == "or" else (tt_,)
+                    for dj in disj:
+                        if dj[0] == "cmp" and dj[1] == ("in",) and dj[2][0] == ("const", "|") and dj[2][1][0] == "sub" and dj[2][1][1] == pattern and \
+                                dj[2][1][2][0] == "slice" and dj[2][1][2][3] is None and dj[2][1][2][1] is not None and dj[2][1][2][2] is not None:
+                            lo_, hi_ = _offset_from(dj[2][1][2][1], idx), _offset_from(dj[2][1][2][2], idx)
+                            if lo_ is not None and hi_ is not None and lo_ <= 1 < hi_:
+                                bar_neg = True
+                        ac = is_call(dj, "any")
+                        if ac and ac[0] and ac[0][0][0] == "comp" and len(ac[0][0][4]) == 1:
+                            comp_ = ac[0][0]
+                            var_elem = comp_[4][0][1]
+                            coll_ = var_elem[2] if var_elem[0] == "iter" else None
+                            parts_ = comp_[3][2] if comp_[3][0] == "boolop" and comp_[3][1] == "and" else (comp_[3],)
+                            tests_bar = any(p_[0] == "cmp" and p_[1] == ("==",) and p_[2] == (("sub", pattern, var_elem), ("const", "|")) for p_ in parts_)
+                            if tests_bar and coll_ is not None and coll_[0] in ("tuple", "list") and any(_offset_from(x_, idx) == 1 for x_ in coll_[1]):
+                                bar_neg = True
                 # is the position "directly after the closing brace"?  (index = position of ')' + 1)
                 after_brace = False
                 base = idx
